@@ -52,7 +52,7 @@ void compute_xInt(double *xx, int N, double *xInt){
 void compute_delj(double *dx, double *MInt, double *VInt,
         int N, double *delj, int use_delj_trick){
     int ii;
-    double wj, epsj;
+    double wj, xij;
     if(!use_delj_trick){
         for(ii=0; ii < N-1; ii++)
             delj[ii] = 0.5;
@@ -61,9 +61,15 @@ void compute_delj(double *dx, double *MInt, double *VInt,
 
     for(ii=0; ii < N-1; ii++){
         wj = 2 * MInt[ii] * dx[ii];
-        epsj = exp(wj/VInt[ii]);
-        if((epsj != 1.0) && (wj != 0))
-            delj[ii] = (-epsj*wj + epsj*VInt[ii] - VInt[ii])/(wj - epsj*wj);
+        xij = wj/VInt[ii];
+        /* With epsj = exp(xij), this is algebraically
+         * (-epsj*wj + epsj*VInt - VInt)/(wj - epsj*wj), but written such that
+         * it neither overflows for large xij nor loses all precision for
+         * small xij. */
+        if(fabs(xij) >= 1e-5)
+            delj[ii] = 1. + 1./expm1(xij) - 1./xij;
+        else if(xij == xij)
+            delj[ii] = 0.5 + xij/12.;
         else
             delj[ii] = 0.5;
     }
